@@ -205,6 +205,10 @@ def gen(sh):
     g("  obtain %s := hpa" % mem_pat("q"))
     g("  obtain %s := hpb" % mem_pat("r"))
     g("  bord\n")
+    inv_a = " ∧ ".join("¬ %s < %s" % (f("a.max", x), f("a.min", x)) for x in A)
+    g("/-- what `intersects(box)` computes, for ALL boxes: both boxes non-empty and per-axis overlap of the min/max pairs -/")
+    g("theorem %s.intersectsBox_iff_full (a b : %s α) :\n    Gen.%s.intersectsBox a b = true ↔ ¬ %s.Inverted a ∧ ¬ %s.Inverted b ∧ (%s) := by" % (S, S, S, S, S, axes_rhs))
+    g("  simp only [Gen.%s.intersectsBox, %s.Inverted, ite_false_iff, ite_false'_iff, ite_true_iff, ite_true'_iff, not_or, not_lt, not_le, and_assoc,\n    and_true, Bool.false_eq_true, or_false, false_and, and_false, imp_false] <;> tauto\n" % (S, S))
     g("theorem %s.intersectsBox_symm (a b : %s α) : Gen.%s.intersectsBox a b = Gen.%s.intersectsBox b a := by" % (S, S, S, S))
     g("  rw [Bool.eq_iff_iff]")
     g("  simp only [Gen.%s.intersectsBox, ite_false_iff, ite_false'_iff, ite_true_iff, ite_true'_iff, not_lt, not_le, and_assoc, and_true,\n    Bool.false_eq_true, or_false, false_and, and_false, imp_false] <;> tauto\n" % S)
